@@ -107,16 +107,21 @@ def body(ch, ctx):
         perms = ctx.memo.setdefault(("perms", k), list(itertools.permutations(range(k))))
     perm = ch.choose("permutation", perms)
     edges = edges_of(k, mask)
-    names = ["n,0" if i == 0 else "n%d" % i for i in range(k)]        # one id contains a comma (written %2C in the file)
+    # ids with a comma or a per-cent sign (escaped in the file), a quote, an SQL wildcard, and one that looks like a keyword
+    names = ["n,0", "autoincrement:n1", "n'2", "n_3", "n%4"][:k]
     parents_of = {j: [names[i] for i, jj in edges if jj == j] for j in range(k)}
     if dangling is not None:
         parents_of[dangling] = parents_of[dangling] + ["ghost"]
     lines = {}
-    enc = lambda x: x.replace(",", "%2C")
+    enc = lambda x: x.replace("%", "%25").replace(",", "%2C")
+    # several parents are written as a comma list or by repeating the key (the rest of the file has nothing to repeat)
+    style = ch.choose("multi_parent_style", ("comma", "repeated")) if any(len(v) > 1 for v in parents_of.values()) and (k <= 3 or ctx.tier != "quick") else "comma"
     for i in range(k):
         attrs = "ID=%s" % enc(names[i])
-        if parents_of[i]:
+        if parents_of[i] and style == "comma":
             attrs += ";Parent=" + ",".join(enc(p) for p in parents_of[i])
+        elif parents_of[i]:
+            attrs += "".join(";Parent=" + enc(p) for p in parents_of[i])
         lines[i] = "c1\ts\t%s\t%d\t%d\t.\t+\t.\t%s" % (TYPES[i], 100 - 10 * i, 200 - 10 * i, attrs)
     text = "\n".join(lines[i] for i in perm) + "\n"
     l1, l2 = closure(k, edges, range(k))
